@@ -28,6 +28,14 @@ def stmts_in_order(fn_or_body):
     return out
 
 
+def dfs(node):
+    """Depth-first pre-order walk in field order (body before orelse): the structural order of the normalised tree, independent
+    of line numbers."""
+    yield node
+    for ch in ast.iter_child_nodes(node):
+        yield from dfs(ch)
+
+
 def u(node):
     return ast.unparse(node)
 
